@@ -6,7 +6,7 @@ import Y0.Lemmas.IdStep
 import Mathlib.Data.List.Basic
 
 namespace Y0
-open IdDsl
+open IdDsl IdAux
 
 /-- a plain variable (no star, not an intervention, no subscripts) whose name is in `V` -/
 def Var.PlainIn (V : List Name) (v : Var) : Prop := v = Var.plain v.name ∧ v.name ∈ V
@@ -47,7 +47,7 @@ theorem plainIn_of_mem_plainVars {V l : List Name} (h : ∀ x ∈ l, x ∈ V) :
   obtain ⟨x, hx, rfl⟩ := hv
   exact ⟨rfl, h x (mem_sortNames.mp hx)⟩
 
-theorem mem_sortBy {α : Type} (lt : α → α → Bool) (l : List α) (a : α) : a ∈ sortBy lt l ↔ a ∈ l := by
+theorem IdAux.mem_sortBy {α : Type} (lt : α → α → Bool) (l : List α) (a : α) : a ∈ sortBy lt l ↔ a ∈ l := by
   have ins : ∀ (x : α) (l : List α), a ∈ insertBy lt x l ↔ a = x ∨ a ∈ l := by
     intro x l
     induction l with
@@ -89,7 +89,7 @@ theorem obsOnly_productSafe {es : List Expr} (h : ∀ e ∈ es, ObsOnly V e) : O
       exact h e (List.mem_filter.mp this).1
     · refine .prod _ ?_
       intro f hf
-      rw [mem_sortBy] at hf
+      rw [IdAux.mem_sortBy] at hf
       exact h f (List.mem_filter.mp hf).1
 
 theorem obsOnly_pCond {child : Name} {parents : List Name} (hc : child ∈ V) (hp : ∀ x ∈ parents, x ∈ V) :
@@ -117,7 +117,7 @@ theorem obsOnly_mkFrac {n d e : Expr} (h : mkFrac n d = .ok e) (hn : ObsOnly V n
   · cases h
   · simp only [Except.ok.injEq] at h; subst h; exact .frac _ _ hn hd
 
-theorem bind_ok {ε α β : Type} {x : Except ε α} {f : α → Except ε β} {b : β} (h : (x >>= f) = .ok b) :
+theorem IdAux.bind_ok {ε α β : Type} {x : Except ε α} {f : α → Except ε β} {b : β} (h : (x >>= f) = .ok b) :
     ∃ a, x = .ok a ∧ f a = .ok b := by
   cases x with
   | error e => cases h
@@ -190,9 +190,9 @@ theorem obsOnly_div (a b e : Expr) (h : div a b = .ok e) (ha : ObsOnly V a) (hb 
     · exact obsOnly_mkFrac h ha hb
 
 
-theorem indexOf?_ok {order : List Name} {v : Name} {i : Nat} (h : indexOf? order v = .ok i) :
+theorem orderIndex?_ok {order : List Name} {v : Name} {i : Nat} (h : orderIndex? order v = .ok i) :
     v ∈ order ∧ i = (order.takeWhile (· ≠ v)).length := by
-  unfold indexOf? at h
+  unfold orderIndex? at h
   split at h
   · rename_i hv; simp only [Except.ok.injEq] at h; exact ⟨hv, h.symm⟩
   · cases h
@@ -205,7 +205,7 @@ theorem pParents_ok {order : List Name} {est : Expr} {child : Name} {e : Expr}
           div (sumSafe est (order.drop (i + 1))) (sumSafe est (order.drop i)) = .ok e)) := by
   unfold pParents at h
   obtain ⟨i, hi, h⟩ := bind_ok h
-  obtain ⟨hc, hi'⟩ := indexOf?_ok hi
+  obtain ⟨hc, hi'⟩ := orderIndex?_ok hi
   refine ⟨hc, i, hi', ?_⟩
   split at h
   · rename_i hm
@@ -223,7 +223,7 @@ theorem obsOnly_pParents {order : List Name} {est : Expr} {child : Name} {e : Ex
       (obsOnly_sumSafe hest (fun x hx => ho x (List.mem_of_mem_drop hx)))
       (obsOnly_sumSafe hest (fun x hx => ho x (List.mem_of_mem_drop hx)))
 
-theorem forall₂_right {α β : Type} {R : α → β → Prop} {l : List α} {r : List β} (h : List.Forall₂ R l r) :
+theorem IdAux.forall₂_right {α β : Type} {R : α → β → Prop} {l : List α} {r : List β} (h : List.Forall₂ R l r) :
     ∀ b ∈ r, ∃ a ∈ l, R a b := by
   induction h with
   | nil => simp
@@ -234,7 +234,7 @@ theorem forall₂_right {α β : Type} {R : α → β → Prop} {l : List α} {r
     · obtain ⟨a, ha, hab⟩ := ih b hb
       exact ⟨a, List.mem_cons_of_mem _ ha, hab⟩
 
-theorem forall₂_left {α β : Type} {R : α → β → Prop} {l : List α} {r : List β} (h : List.Forall₂ R l r) :
+theorem IdAux.forall₂_left {α β : Type} {R : α → β → Prop} {l : List α} {r : List β} (h : List.Forall₂ R l r) :
     ∀ a ∈ l, ∃ b ∈ r, R a b := by
   induction h with
   | nil => simp
